@@ -251,9 +251,9 @@ def run_single(mod, tier, seed, args):
 
 def finish(mod, tier, merged, failure, wall):
   known = load_known(mod.ID)
-  for key, hits in sorted(merged['known_hits'].items()):
-    print('KNOWN-FINDING: property=%s %s (key=%s, hit %d times)' % (
-        mod.ID, known.get(key, {}).get('what', key), key, hits))
+  for key in sorted(known):
+    print('KNOWN-FINDING: property=%s %s (key=%s, reproduced %d times in this run)' % (
+        mod.ID, known[key].get('what', key), key, merged['known_hits'].get(key, 0)))
   if failure is not None:
     plan, v = failure
     _report_violation(mod, plan, v)
